@@ -26,7 +26,9 @@ CLASS_OF["OperandError"] = "RuntimeError"
 # an instance of a second, unrelated class that is also called MyErr (declared inside a function): it prints like
 # MyErr, it is an Error, and a clause filtering on the module's MyErr does not take it
 CLASS_OF["Shadow"] = "MyErr"
-FILTERS = ["Error", "Error", "Error", "MyErr", "IndexError", "RuntimeError", "PropertyError", "IoError"]
+# LateErr is declared at the very end of the file: while the functions run, evaluating it as a catch filter raises
+# ('Undefined variable'), and that new error cannot be handled by the clause whose filter it is
+FILTERS = ["Error", "Error", "Error", "MyErr", "IndexError", "RuntimeError", "PropertyError", "IoError", "LateErr"]
 DATA = "/sim/data.txt"
 
 
@@ -329,7 +331,7 @@ def render(funs, target, kind):
         text = "let FIN = chan(1);\n" + text + "\nlaunch %s;\nprint('R', <- FIN);\n" % first
     else:
         text += "\ntry { print('R', %s); } catch e: %s { print('TOP', e.cls().name()); }\n" % (first, funs[0].get("top_filter", "Error"))
-    text += "let after = %d;\nprint('END', CNT, after);\n" % 4242
+    text += "let after = %d;\nprint('END', CNT, after);\nclass LateErr : Error {}\n" % 4242
     return text
 
 
@@ -403,6 +405,8 @@ def model(funs, target, kind):
                     run_block(s[1], env)
                 except Raise as error:
                     for clause_filter, handler in [[s[3], s[4]]] + (s[5] if len(s) > 5 else []):
+                        if clause_filter == "LateErr":
+                            raise Raise("RuntimeError")
                         if clause_filter == "Error" or clause_filter == error.ident:
                             out.append(show("C %s %s %s" % (clause_filter, error.cls, "true" if error.raised else "false"), env, s[2]))
                             outer = env.get("$error")
@@ -427,6 +431,10 @@ def model(funs, target, kind):
     try:
         out.append("R %s" % call(0, [7000 + j for j in range(funs[0]["params"])]))
     except Raise as error:
+        if top == "LateErr":
+            # evaluating the outermost filter raises itself and nothing is left to handle that
+            out.append("UNHANDLED RuntimeError")
+            return out, count[0]
         if top == "Error" or top == error.ident:
             out.append("TOP %s" % error.cls)
         else:
